@@ -783,7 +783,7 @@ func (r *Resolver) RecordStatus(h *ssa.Function, idx int) (isRecord, clean bool)
 	if t == nil && opaque < 0 {
 		return false, false
 	}
-	return true, t != nil && opaque == 0
+	return true, opaque == 0
 }
 
 // recordResult2: the record, and the number of fields left opaque (-1: not a record at all).
@@ -881,7 +881,27 @@ func (r *Resolver) recordResult2(h *ssa.Function, idx int) (*Term, int) {
 			val = &Term{Op: "zero", Name: "zero:" + fname}
 		}
 		if val == nil {
-			nOpaque++
+			// a list grown in place (f = append(f, ...)) is followed by the list rules, not through the record
+			acc := len(stores[i]) > 0 && !opaque[i]
+			for _, st := range stores[i] {
+				cl, isCall := st.Val.(*ssa.Call)
+				if !isCall {
+					acc = false
+					continue
+				}
+				bi, isB := cl.Call.Value.(*ssa.Builtin)
+				if !isB || bi.Name() != "append" || len(cl.Call.Args) == 0 {
+					acc = false
+					continue
+				}
+				ld, isLoad := cl.Call.Args[0].(*ssa.UnOp)
+				if !isLoad || ld.Op != token.MUL || !sameAddr(ld.X, st.Addr) {
+					acc = false
+				}
+			}
+			if !acc {
+				nOpaque++
+			}
 			val = &Term{Op: "alloc", Name: r.P.Name(h) + "." + fname, Unstable: true}
 		}
 		t.Args = append(t.Args, &Term{Op: "fieldinit", Name: fname, Args: []*Term{val}})
